@@ -55,6 +55,84 @@ void h_setopt_pcb_int(void)
 	CANARY("setopt_pcb_int");
 }
 
+/* the same contract for FLOAT and BOOL options with a parse callback */
+static double g_pcb_double; static cfg_bool_t g_pcb_bool;
+static int cfgv_parsecb_float(cfg_t *cfg, cfg_opt_t *opt, const char *value, void *result)
+{ g_pcb_calls++; g_pcb_cfg = cfg; g_pcb_opt = opt; g_pcb_text = value; if (g_pcb_ret == 0) *(double *)result = g_pcb_double; return g_pcb_ret; }
+static int cfgv_parsecb_bool(cfg_t *cfg, cfg_opt_t *opt, const char *value, void *result)
+{ g_pcb_calls++; g_pcb_cfg = cfg; g_pcb_opt = opt; g_pcb_text = value; if (g_pcb_ret == 0) *(cfg_bool_t *)result = g_pcb_bool; return g_pcb_ret; }
+static int k_pcb_type;
+static void b_setopt_pcb_fb(unsigned n)
+{
+	cfg_t cfg; cfg_opt_t o; snap_t s; cfg_value_t *r;
+	char text[2] = { nondet_char(), 0 };
+	if ((k_flags & CFGF_MULTI) || (!(k_flags & CFGF_LIST) && n > 1)) return;
+	mk_cfg(&cfg); mk_opt(&o, k_pcb_type, n, 0);
+	o.parsecb = k_pcb_type == CFGT_FLOAT ? cfgv_parsecb_float : cfgv_parsecb_bool;
+	snap(&o, &s);
+	g_pcb_calls = 0; g_pcb_ret = nondet_int(); g_pcb_double = nondet_double(); g_pcb_bool = nondet_bool() ? cfg_true : cfg_false;
+	__CPROVER_assume(!__CPROVER_isnand(g_pcb_double));
+	r = cfg_setopt(&cfg, &o, text);
+	CHECK("C14", g_pcb_calls <= 1 && (r == NULL || g_pcb_calls == 1), "float / boolean option: the value-parsing callback is invoked exactly once per stored value");
+	CHECK("C14", g_pcb_calls == 0 || (g_pcb_cfg == &cfg && g_pcb_opt == &o && g_pcb_text == text), "float / boolean option: the value-parsing callback receives the context, the option and the token text");
+	CHECK("C14", g_pcb_calls == 0 || ((g_pcb_ret != 0) == (r == NULL)), "float / boolean option: a non-zero result of the value-parsing callback fails the assignment, zero succeeds");
+	if (r) {
+		CHECK("C14", k_pcb_type == CFGT_FLOAT ? r->fpnumber == g_pcb_double : r->boolean == g_pcb_bool, "float / boolean option: the stored value is the one the parsing callback produced");
+		CHECK("C01,C09", APPENDS(n) ? (o.nvalues == ((k_flags & CFGF_RESET) ? 1 : n + 1) && r == o.values[o.nvalues - 1]) : (o.nvalues == n && r == o.values[0]),
+		      "float / boolean set-from-text: a list / empty / default-holding option gets one new value at the end, a set scalar is overwritten");
+	} else if (!APPENDS(n))
+		CHECK("C14,C10", same(&o, &s), "float / boolean option: a vetoed assignment to a scalar that holds a value leaves it exactly as it was");
+}
+void h_setopt_pcb_fb(void)
+{
+	if (nondet_bool()) { k_pcb_type = CFGT_FLOAT; FOR_EACH_FLAGS(FOR_EACH_COUNT(b_setopt_pcb_fb)); }
+	else { k_pcb_type = CFGT_BOOL; FOR_EACH_FLAGS(FOR_EACH_COUNT(b_setopt_pcb_fb)); }
+	CANARY("setopt_pcb_fb");
+}
+
+/* ---------------------------------------------------------------- simple options (CFG_SIMPLE_*): the caller's variable is the slot
+ * contract: the converted value lands in the caller's variable, no slot array is created, a refused text leaves the
+ * variable alone; a simple string variable holds a private copy and the string it held before is released */
+void h_setopt_simple(void)
+{
+	cfg_t cfg; cfg_opt_t o; cfg_value_t *r; unsigned k = nondet_uint();
+	mk_cfg(&cfg);
+	memset(&o, 0, sizeof o); o.name = "o";
+	if (k == 0) {
+		long user = nondet_long(), before;
+		o.type = CFGT_INT; o.simple_value.number = &user;
+		r = cfg_setopt(&cfg, &o, "12");
+		CHECK("C01,C09", r == (cfg_value_t *)&user && user == 12 && o.nvalues == 0 && o.values == NULL, "a simple integer option stores straight into the caller's variable; no slot is created");
+		before = user; g_diag = 0;
+		r = cfg_setopt(&cfg, &o, "1x");
+		CHECK("C04,C10,C06", r == NULL && user == before && o.nvalues == 0 && g_diag == 1, "a simple integer option: a refused text is reported and leaves the caller's variable alone");
+	} else if (k == 1) {
+		/* (the variable lives in a block of the slot union's size: cfg_setopt addresses it as a cfg_value_t and CBMC checks the
+		 * whole lvalue, although only the boolean member is written) */
+		cfg_value_t userblock; cfg_bool_t before;
+#define user userblock.boolean
+		user = nondet_bool() ? cfg_true : cfg_false;
+		o.type = CFGT_BOOL; o.simple_value.boolean = &user;
+		r = cfg_setopt(&cfg, &o, "yes");
+		CHECK("C01,C09", r == (cfg_value_t *)&user && user == cfg_true && o.nvalues == 0 && o.values == NULL, "a simple boolean option stores straight into the caller's variable");
+		r = cfg_setopt(&cfg, &o, "off");
+		CHECK("C01,C09", r == (cfg_value_t *)&user && user == cfg_false, "a simple boolean option is overwritten by the next assignment");
+		before = user;
+		r = cfg_setopt(&cfg, &o, "maybe");
+		CHECK("C04,C10", r == NULL && user == before, "a simple boolean option: an unknown word leaves the caller's variable alone");
+#undef user
+	} else {
+		char *user = nondet_bool() ? cfgv_string(2) : NULL; char text[3] = "ab";
+		o.type = CFGT_STR; o.simple_value.string = &user;
+		r = cfg_setopt(&cfg, &o, text);
+		if (r) {
+			CHECK("C01,C16", r == (cfg_value_t *)&user && user != NULL && user != text && strcmp(user, "ab") == 0 && o.nvalues == 0 && o.values == NULL, "a simple string option holds a private copy of the text in the caller's variable");
+			free(user);        /* with --memory-leak-check: the string held before was released by the call */
+		}
+	}
+	CANARY("setopt_simple");
+}
+
 /* ---------------------------------------------------------------- PTR arm (C07 C14)
  * no parse callback -> refused (EINVAL).  Callback non-zero -> NULL and the value held is neither released nor
  * replaced.  Zero -> the old non-NULL pointer is handed to the release callback exactly once (if one is registered),
@@ -127,6 +205,20 @@ void h_setopt_str(void)
 {
 	FOR_EACH_FLAGS(FOR_EACH_COUNT(b_setopt_str));
 	CANARY("setopt_str");
+}
+
+/* ownership on replacement through set-from-text (C07): same shape as setnstr_release */
+void h_setopt_str_release(void)
+{
+	cfg_t cfg; cfg_opt_t o; cfg_value_t *r; char *text = cfgv_string(2);
+	mk_cfg(&cfg);
+	k_flags = 0; k_leftover = 0;
+	mk_opt(&o, CFGT_STR, 1, 0);
+	r = cfg_setopt(&cfg, &o, text);
+	CHECK("C09,C07", r == o.values[0] && o.nvalues == 1, "set-from-text on a set scalar string succeeds (no allocation failure in this unit)");
+	drop_opt(&o);
+	free(text);
+	CANARY("setopt_str_release");
 }
 
 /* ---------------------------------------------------------------- argument validation */
